@@ -9,7 +9,7 @@ INFO = {
     'level': 'exploration',
     'rule': ('(error class from clastic.errors.__all__ or base class with explicit code, raised or returned, default / '
              'overridden code, message, detail, error_type drawn from markup, quotes, ampersands, braces, format / ashes '
-             'template syntax, non-ASCII and control characters, Accept header, default or debug handler) plus 404s for '
+             'template syntax, non-ASCII and control characters, Accept header, default / debug handler / a handler that hands the error back so that the fallback rendering of the framework answers) plus 404s for '
              'marked-up paths / queries / headers / cookies and uncaught exceptions whose message and locals carry a '
              'marker tag. Non-trivial = a dynamic field contains a character that needs escaping in the negotiated '
              'format; distinct cases counted.'),
@@ -259,7 +259,7 @@ def strategy():
     http = st.fixed_dictionaries({
         'kind': st.just('http'), 'cls': st.sampled_from(names), 'how': st.sampled_from(['raise', 'return']),
         'detail': opt(text), 'message': opt(text), 'error_type': opt(text), 'code': opt(st.sampled_from([400, 418, 499, 500, 599, 404])),
-        'accept': st.sampled_from(ACCEPTS), 'debug': st.booleans(), 'method': st.sampled_from(['GET', 'GET', 'POST']),
+        'accept': st.sampled_from(ACCEPTS), 'debug': st.sampled_from([False, True, False, True, 'fallback']), 'method': st.sampled_from(['GET', 'GET', 'POST']),
         'preset': st.sampled_from([None, None, None, 'text/html', 'application/json', 'application/xml', 'text/plain', 'image/png']),
         'reuse': st.sampled_from([None, None, 'text/html', 'application/json', 'application/xml']),
     })
@@ -268,11 +268,11 @@ def strategy():
                                                       min_size=1, max_size=2),
         'query': st.sampled_from(['', 'q=<zq9v>', 'a="><zq9w>', '%3Czq9x%3E=1', "k='><zq9y>"]),
         'header': opt(st.sampled_from(NASTY[:12])), 'cookie': opt(st.sampled_from(['c=<zq9z>', 'k="><zq9aa>"', "s='<zq9ab>'"])),
-        'accept': st.sampled_from(ACCEPTS), 'debug': st.booleans(), 'method': st.sampled_from(['GET', 'POST']),
+        'accept': st.sampled_from(ACCEPTS), 'debug': st.sampled_from([False, True, False, True, 'fallback']), 'method': st.sampled_from(['GET', 'POST']),
     })
     uncaught = st.fixed_dictionaries({
         'kind': st.just('uncaught'), 'exc': st.sampled_from(['ValueError', 'KeyError', 'RuntimeError', 'Custom', 'UnicodeError', 'AssertionError']),
-        'msg': text, 'local': text, 'accept': st.sampled_from(ACCEPTS), 'debug': st.booleans(),
+        'msg': text, 'local': text, 'accept': st.sampled_from(ACCEPTS), 'debug': st.sampled_from([False, True, False, True, 'fallback']),
         'pathseg': text.map(lambda s: s.replace('/', '|').replace('\n', ' ').replace('\r', ' ').replace('\x00', '')),
     })
     return st.one_of(http, http, nf, uncaught)
@@ -312,6 +312,14 @@ def make_app(case, cell):
         exc = {'ValueError': ValueError, 'KeyError': KeyError, 'RuntimeError': RuntimeError, 'Custom': CustomErr,
                'UnicodeError': UnicodeError, 'AssertionError': AssertionError}[c['exc']]
         raise exc(c['msg'])
+    if case['debug'] == 'fallback':
+        # a handler that renders nothing itself: the framework's fallback rendering negotiates the format
+        from clastic.errors import ErrorHandler
+
+        class HandsBack(ErrorHandler):
+            def render_error(self, request, _error, **kwargs):
+                raise _error
+        return Application([Route('/http', ep_http), Route('/boom/<seg>', ep_uncaught)], error_handler=HandsBack())
     return Application([Route('/http', ep_http), Route('/boom/<seg>', ep_uncaught)], debug=case['debug'])
 
 
@@ -328,7 +336,7 @@ def body(case, ctx):
     hdrs = {} if accept is None else {'Accept': accept}
     rc = case
     kind = case['kind']
-    ctx.event('kind-' + kind + ('-debug' if case['debug'] else ''))
+    ctx.event('kind-' + kind + ('-fallback' if case['debug'] == 'fallback' else '-debug' if case['debug'] else ''))
     if kind == 'http':
         cell['reuse_obj'] = None
         if case.get('reuse') and not case['cls'].startswith('Contextual'):
@@ -405,7 +413,7 @@ def body(case, ctx):
 def run_matrix(ctx):
     """every exported class x raise/return x 4 exact Accept values, default fields: status table + format"""
     from clastic import errors
-    for debug in (False, True):
+    for debug in (False, True, 'fallback'):
         for cn in errors.__all__:
             for how in ('raise', 'return'):
                 for accept in ('text/html', 'application/json', 'application/xml', 'text/plain', 'image/png'):
